@@ -1,2 +1,3 @@
 -- root of the library: every property module (models, lemmas and Gen files come in transitively)
 import TdVerif.Props.C18
+import TdVerif.Props.C13
